@@ -460,7 +460,40 @@ var ctorKeyRe = regexp.MustCompile(`\*@(call:[^: ]+:t\d+)((?:\.[A-Za-z_][A-Za-z0
 // call site), loads of immutable fields of constructor-built context objects into the value
 // the constructor stored: "*@call:handleRefresh:t0.Request.SrcAddr" becomes
 // "param:handleRefresh:req.SrcAddr".
+var localStructKeyRe = regexp.MustCompile(`\*(alloc:[^: ]+:t\d+)@(t\d+)((?:\.[A-Za-z_][A-Za-z0-9_]*)+)`)
+
+// normLocalStructKey rewrites "(*local-struct as loaded at tM).path" — what substituting a
+// by-value struct argument into a helper's key produces — into the key of that field.
+func (w *World) normLocalStructKey(k string) string {
+	if !strings.Contains(k, "*alloc:") || !strings.Contains(k, "@t") {
+		return k
+	}
+	return localStructKeyRe.ReplaceAllStringFunc(k, func(m string) string {
+		sub := localStructKeyRe.FindStringSubmatch(m)
+		al := w.allocByLoc(sub[1])
+		if al == nil {
+			return m
+		}
+		var ld *ssa.UnOp
+		w.eachInstr(al.Parent(), func(in ssa.Instruction) {
+			if u, ok := in.(*ssa.UnOp); ok && u.Op == token.MUL && u.X == ssa.Value(al) && u.Name() == sub[2] {
+				ld = u
+			}
+		})
+		if ld == nil {
+			return m
+		}
+		path := strings.Split(strings.TrimPrefix(sub[3], "."), ".")
+		r := w.structFieldKey(ld, path, 0)
+		if r == w.key(ld)+"."+strings.Join(path, ".") {
+			return m
+		}
+		return r
+	})
+}
+
 func (w *World) normCtorKey(k string) string {
+	k = w.normLocalStructKey(k)
 	if !strings.Contains(k, "*@call:") {
 		return k
 	}
@@ -629,6 +662,9 @@ func (w *World) structFieldValue(sv ssa.Value, path []string, depth int) ssa.Val
 func (w *World) localStructField(al *ssa.Alloc, path []string, at ssa.Instruction, depth int) ssa.Value {
 	loc := w.locKey(al)
 	full := loc + "." + strings.Join(path, ".")
+	if os.Getenv("TURNCHECK_WODEBUG") != "" {
+		fmt.Fprintf(os.Stderr, "LSF %s path=%v stores=%d under=%d whole=%d\n", loc, path, len(w.stores[full]), len(w.storesUnder(full)), len(w.stores[loc]))
+	}
 	if ss := w.stores[full]; len(ss) == 1 && len(w.storesUnder(full)) == 0 {
 		// no whole-struct store may overwrite it afterwards
 		for n := len(path) - 1; n >= 0; n-- {
@@ -707,4 +743,211 @@ func (w *World) escapesToWriters(al *ssa.Alloc) bool {
 		return false
 	}
 	return visit(al)
+}
+
+// structFieldKey: the key of field `path` of struct value sv: the key of the value it holds
+// when that is unique (structFieldValue), else the key of the outermost struct value the field
+// can be traced to, followed by the remaining path ("param:authenticateRequest:req.Conn" for
+// a.req.Conn with a := authAttempt{req: req, …} handed on by value).
+func (w *World) structFieldKey(sv ssa.Value, path []string, depth int) string {
+	if r := w.structFieldValue(sv, path, 0); r != nil {
+		return w.key(r)
+	}
+	fallback := func() string { return w.key(sv) + "." + strings.Join(path, ".") }
+	if depth > 8 || len(path) == 0 {
+		return fallback()
+	}
+	switch x := sv.(type) {
+	case *ssa.Parameter:
+		if a, ok := argOfParam(x); ok {
+			return w.structFieldKey(a, path, depth+1)
+		}
+	case *ssa.UnOp:
+		if x.Op != token.MUL {
+			break
+		}
+		al, isAl := x.X.(*ssa.Alloc)
+		if !isAl || w.escapesToWriters(al) {
+			break
+		}
+		loc := w.locKey(al)
+		for n := len(path); n >= 0; n-- {
+			p := loc
+			if n > 0 {
+				p += "." + strings.Join(path[:n], ".")
+			}
+			ss := w.stores[p]
+			if len(ss) == 0 {
+				continue
+			}
+			if len(ss) != 1 || len(w.storesUnder(p)) != 0 || (ss[0].Parent() == x.Parent() && !instrDominates(ss[0], x)) {
+				break
+			}
+			if n == len(path) {
+				return w.key(ss[0].Val)
+			}
+			return w.structFieldKey(ss[0].Val, path[n:], depth+1)
+		}
+	}
+	return fallback()
+}
+
+// expRet: one way a function can return, with its results followed into the struct value
+// they are fields of: `res := a.run(); return res.key, res.ok, res.user, res.err` has as
+// many of these as the helpers that build the result struct have returns. ret is the
+// innermost return instruction (its facts are the conditions of that outcome); vals[i] is the
+// value of result i there (nil: the zero value).
+type expRet struct {
+	ret  *ssa.Return
+	vals []ssa.Value
+}
+
+func (w *World) expandStructReturns(fn *ssa.Function) []expRet {
+	var out []expRet
+	for _, r := range returnsOf(fn) {
+		// are all results fields of one struct value?
+		var sv ssa.Value
+		names := make([]string, len(r.Results))
+		ok := len(r.Results) > 0
+		for i, res := range r.Results {
+			s, f := w.fieldOfStructValue(res)
+			if s == nil || (sv != nil && s != sv) {
+				ok = false
+				break
+			}
+			sv, names[i] = s, f
+		}
+		var leaves []structLeaf
+		if ok {
+			leaves, ok = w.structLeaves(sv, 0)
+		}
+		if !ok {
+			vals := make([]ssa.Value, len(r.Results))
+			for i, res := range r.Results {
+				vals[i] = w.resolveLoad(res)
+			}
+			out = append(out, expRet{r, vals})
+			continue
+		}
+		for _, lf := range leaves {
+			vals := make([]ssa.Value, len(names))
+			for i, f := range names {
+				if lf.alloc == nil {
+					continue
+				}
+				ss := w.stores[w.locKey(lf.alloc)+"."+f]
+				if len(ss) == 1 {
+					vals[i] = w.resolveLoad(ss[0].Val)
+				} else if len(ss) > 1 {
+					vals[i] = ss[len(ss)-1].Val
+				}
+			}
+			ret := lf.ret
+			if ret == nil {
+				ret = r
+			}
+			out = append(out, expRet{ret, vals})
+		}
+	}
+	return out
+}
+
+type structLeaf struct {
+	ret   *ssa.Return // the return that yields this struct (nil: in the asking function)
+	alloc *ssa.Alloc  // the literal (nil: the zero struct)
+}
+
+// fieldOfStructValue: v is field f of struct value s (a Field instruction, or a load of the
+// field of a local that was assigned s as a whole).
+func (w *World) fieldOfStructValue(v ssa.Value) (ssa.Value, string) {
+	switch x := v.(type) {
+	case *ssa.Field:
+		if st, _ := x.X.Type().Underlying().(*types.Struct); st != nil {
+			return x.X, st.Field(x.Field).Name()
+		}
+	case *ssa.UnOp:
+		if x.Op != token.MUL {
+			return nil, ""
+		}
+		fa, ok := x.X.(*ssa.FieldAddr)
+		if !ok {
+			return nil, ""
+		}
+		al, ok := fa.X.(*ssa.Alloc)
+		if !ok || w.escapesToWriters(al) {
+			return nil, ""
+		}
+		loc := w.locKey(al)
+		if ss := w.stores[loc]; len(ss) == 1 && len(w.storesUnder(loc)) == 0 {
+			return ss[0].Val, fieldOf(fa).Name()
+		}
+	}
+	return nil, ""
+}
+
+// structLeaves: the struct literals (or zero structs) a struct value can be, followed through
+// the results of module helpers, with the return that yields each.
+func (w *World) structLeaves(v ssa.Value, depth int) ([]structLeaf, bool) {
+	if depth > 6 {
+		return nil, false
+	}
+	switch x := v.(type) {
+	case *ssa.Const:
+		if x.Value == nil {
+			return []structLeaf{{nil, nil}}, true
+		}
+	case *ssa.UnOp:
+		if x.Op == token.MUL {
+			if al, ok := x.X.(*ssa.Alloc); ok && !w.escapesToWriters(al) {
+				if ss := w.stores[w.locKey(al)]; len(ss) == 1 && len(w.storesUnder(w.locKey(al))) == 0 {
+					return w.structLeaves(ss[0].Val, depth+1) // a copy of another struct value
+				} else if len(ss) == 0 {
+					return []structLeaf{{nil, al}}, true
+				}
+			}
+		}
+	case *ssa.Phi:
+		var out []structLeaf
+		for _, e := range x.Edges {
+			ls, ok := w.structLeaves(e, depth+1)
+			if !ok {
+				return nil, false
+			}
+			out = append(out, ls...)
+		}
+		return out, true
+	case *ssa.Call, *ssa.Extract:
+		call, idx := callOf(v)
+		if call == nil || call.Call.IsInvoke() {
+			return nil, false
+		}
+		if _, isP := v.(*ssa.Parameter); isP {
+			return nil, false
+		}
+		h := call.Call.StaticCallee()
+		if h == nil || !w.IsMod[h] || len(h.Blocks) == 0 {
+			return nil, false
+		}
+		if idx < 0 {
+			idx = 0
+		}
+		var out []structLeaf
+		for _, r := range returnsOf(h) {
+			if idx >= len(r.Results) {
+				return nil, false
+			}
+			ls, ok := w.structLeaves(r.Results[idx], depth+1)
+			if !ok {
+				return nil, false
+			}
+			for _, l := range ls {
+				if l.ret == nil {
+					l.ret = r
+				}
+				out = append(out, l)
+			}
+		}
+		return out, true
+	}
+	return nil, false
 }
